@@ -206,7 +206,7 @@ func (w *Proxy) setupH2Client(ci int, reqIdxP *int) {
 			w.sendsPending--
 			if cl.Conn == nil && !cl.Tried {
 				cl.Tried = true
-				if c := w.N.Connect(w.lisAddr, cl.Name, cl); c != nil {
+				if c := w.N.Connect(w.addrFor(ci), cl.Name, cl); c != nil {
 					c.SegMode = seg
 					cl.Start(c)
 				}
